@@ -66,6 +66,9 @@ func runC06(c *mon.Ctx) {
 				return strings.Replace(cfgAud, "*", "anything", 1)
 			case 10, 11:
 				// near the configured value, or equal to another of the SP's configured values
+				if r.IntN(3) == 0 {
+					return pick(r, []string{SPIss, SPIss, ACS, SLO, IdPIss})
+				}
 				return NearVariant(r, cfgAud, SPIss, ACS, SLO, IdPIss)
 			}
 			return ""
@@ -103,6 +106,16 @@ func runC06(c *mon.Ctx) {
 					matched = true
 				}
 				auds = append(auds, au)
+			}
+			if i == 0 && r.IntN(4) == 0 {
+				// a restriction naming only other things the SP is configured with (its issuer, its endpoints): none of
+				// them is the audience unless the audience is configured to be exactly that
+				auds, matched = nil, false
+				for j := 1 + r.IntN(2); j > 0; j-- {
+					au := pick(r, []string{SPIss, SPIss, ACS, SLO, IdPIss})
+					auds = append(auds, au)
+					matched = matched || au == cfgAud
+				}
 			}
 			if auds == nil {
 				auds = []string{}
